@@ -30,7 +30,17 @@ type Case struct {
 	Dups   int // further (function, mode) pairs with the identical CFG and observation
 }
 
+// BigSample: sampled observation of one huge function (beyond the block limit of tree_check), NaiveForm only.
+type BigSample struct {
+	Func   string
+	Blocks int
+	Source string // how to regenerate: the function is `nIf` consecutive `if a&k == k { s += k }` statements
+	NIf    int
+	Pairs  [][7]int // b, c, Dominates(b,c) (0/1), pos of b and c in DomPreorder, pos of b and c in DomPostorder
+}
+
 type Out struct {
+	Big        *BigSample
 	Cases      []*Case
 	Functions  int            // (function, mode) pairs observed
 	Skipped    int            // functions over the block limit
@@ -49,6 +59,7 @@ func main() {
 	seed := flag.Uint64("seed", 1, "seed")
 	tier := flag.String("tier", "quick", "quick|thorough")
 	naiveOnly := flag.Bool("naiveonly", false, "build only NaiveForm modes (used after a crash in a lifted mode: the lifter is not run, so a wrong dominator tree is observed instead of crashing lift)")
+	noBig := flag.Bool("nobig", false, "skip the huge-function sample")
 	flag.Parse()
 	rnd := hx.NewRand(*seed)
 	thorough := *tier == "thorough"
@@ -141,7 +152,81 @@ func main() {
 			}
 		}
 	}
+	if !*noBig {
+		res.Big = bigSample(*work, rnd.Fork())
+	}
 	lap("build+obs")
 	fmt.Fprintf(os.Stderr, "hc14: BuildFunctions total %.1fs\n", buildT.Seconds())
 	hx.EmitJSON(*out, res)
+}
+
+// bigSample builds one function with more than 2^15 basic blocks in NaiveForm and reads sampled Dominates pairs
+// and listing positions. Dominance numbering that is truncated or overflows for large functions shows up here.
+func bigSample(work string, rnd *hx.Rand) *BigSample {
+	nIf := 16600 + rnd.Intn(400)
+	var sb strings.Builder
+	sb.WriteString("package big\n\nfunc Big(a int) int {\n\ts := 0\n")
+	for i := 0; i < nIf; i++ {
+		fmt.Fprintf(&sb, "\tif a&%d == %d {\n\t\ts += %d\n\t}\n", i%61+1, i%61+1, i)
+	}
+	sb.WriteString("\treturn s\n}\n")
+	dir := work + "/genbig"
+	hx.WriteFile(dir+"/go.mod", "module genbig\n\ngo 1.24\n")
+	hx.WriteFile(dir+"/big/big.go", sb.String())
+	pkgs, err := hx.LoadSyntax(dir, []string{"GOWORK=off"}, nil, false, "./...")
+	if err != nil || len(pkgs) != 1 {
+		fmt.Fprintln(os.Stderr, "fatal: big package did not load:", err)
+		os.Exit(2)
+	}
+	hx.WriteFile(work+"/progress.txt", "genbig N\n")
+	prog, fns := hx.BuildFunctions(pkgs, ir.NaiveForm)
+	var fn *ir.Function
+	for _, f := range fns {
+		if f.Name() == "Big" {
+			fn = f
+		}
+	}
+	if fn == nil {
+		fmt.Fprintln(os.Stderr, "fatal: Big not built")
+		os.Exit(2)
+	}
+	n := len(fn.Blocks)
+	out := &BigSample{Func: hx.FuncLabel(prog, fn), Blocks: n, NIf: nIf, Source: "package big: func Big(a int) int with NIf consecutive if statements (see hc14 bigSample)"}
+	posOf := func(get func() []*ir.BasicBlock) map[*ir.BasicBlock]int {
+		first := get()
+		for i, j := 0, len(first)-1; i < j; i, j = i+1, j-1 {
+			first[i], first[j] = first[j], first[i]
+		}
+		m := map[*ir.BasicBlock]int{}
+		for i, b := range get() {
+			m[b] = i
+		}
+		return m
+	}
+	pre, post := posOf(fn.DomPreorder), posOf(fn.DomPostorder)
+	idx := []int{0, 1, 2, 3, n / 4, n / 2, 32766, 32767, 32768, 32769, 32770, n - 3, n - 2, n - 1}
+	for i := 0; i < 6; i++ {
+		idx = append(idx, rnd.Intn(n))
+	}
+	for _, bi := range idx {
+		for _, ci := range idx {
+			if bi < 0 || bi >= n || ci < 0 || ci >= n {
+				continue
+			}
+			b, c := fn.Blocks[bi], fn.Blocks[ci]
+			d := 0
+			if b.Dominates(c) {
+				d = 1
+			}
+			pb, ok1 := pre[b]
+			pc, ok2 := pre[c]
+			qb, ok3 := post[b]
+			qc, ok4 := post[c]
+			if !(ok1 && ok2 && ok3 && ok4) {
+				pb, pc, qb, qc = n, n, n, n // block missing from a listing: positions out of range
+			}
+			out.Pairs = append(out.Pairs, [7]int{bi, ci, d, pb, pc, qb, qc})
+		}
+	}
+	return out
 }
